@@ -49,6 +49,23 @@ def generate(rng, tier):
             for s in scenes_of(h):
                 out.append("trk cmp 2 1 %d" % s)
         cases.append(out)
+    # pipeline stress: every batch holds all of 3..4 crowded scenes, ONE voting worker, the retrieving thread lags:
+    # the next batch is submitted while the previous one is still being voted, so a monitor wait that lets `predict`
+    # through early, or bookkeeping done before that wait, shows as a grouping that differs from the simple tracker's
+    for j in range({"quick": 5, "thorough": 40, "search": 12}.get(tier, 5)):
+        ns = rng.randint(3, 4)
+        world = World(rng, ns, rotated=False, dense=True)
+        h = [new_line(rng, "bsort", shards=rng.randint(1, 2), vshards=1, max_idle=rng.randint(1, 3), constraints=[])]
+        for _ in range(steps):
+            sc = [(s_, world.step(s_)) for s_ in range(ns)]
+            sc = [(s_, d) for s_, d in sc if d]
+            if sc: h.append(predict_line(sc))
+        out = ["trk sel 1"] + unbatch(h)
+        out += ["trk sel 2", "trk sched jitter %d" % rng.randrange(1 << 30), "trk sched slowvote %d" % rng.choice([1500, 4000])] + \
+               pipe_lines(h, rng.choice([2000, 5000])) + ["trk sched off"]
+        for s_ in scenes_of(h):
+            out.append("trk cmp 2 1 %d" % s_)
+        cases.append(out)
     return cases
 
 
